@@ -132,6 +132,12 @@ type cFunc struct {
 	calls  []cCall
 	rets   cRoots   // what the pointer-like results may point to (in terms of the parameters)
 	unattr []string // calls whose effects cannot be attributed: function values, methods of user-supplied interface values
+	acq    []cAcq   // lock acquisitions (Lock, RLock, Once.Do) with the locks held lexically at that point
+}
+
+type cAcq struct {
+	lock string
+	held []string
 }
 type cPkg struct {
 	name string
@@ -606,6 +612,14 @@ func (s *fnState) lockName(recv ast.Expr, sel *types.Selection) string {
 			}
 		}
 	}
+	if len(names) == 0 {
+		// an object of unknown origin (e.g. the Config returned by a callback): name the field by its static type
+		if se, ok := recv.(*ast.SelectorExpr); ok {
+			if sl, ok := s.f.pkg.info.Selections[se]; ok && sl.Kind() == types.FieldVal {
+				names = append(names, typeName(sl.Recv())+"."+se.Sel.Name)
+			}
+		}
+	}
 	sort.Strings(names)
 	if len(names) == 0 {
 		return "?"
@@ -760,9 +774,11 @@ func (s *fnState) call(x *ast.CallExpr) {
 		rt := typeName(sel.Obj().(*types.Func).Type().(*types.Signature).Recv().Type())
 		switch rt + "." + fn.Name() {
 		case "sync.Mutex.Lock", "sync.RWMutex.Lock":
+			s.f.acq = append(s.f.acq, cAcq{s.lockName(recv, sel), s.locksNow()})
 			s.hold(s.lockName(recv, sel))
 			return
 		case "sync.RWMutex.RLock":
+			s.f.acq = append(s.f.acq, cAcq{s.lockName(recv, sel), s.locksNow()})
 			s.hold("R:" + s.lockName(recv, sel))
 			return
 		case "sync.Mutex.Unlock", "sync.RWMutex.Unlock", "sync.RWMutex.RUnlock":
@@ -770,6 +786,7 @@ func (s *fnState) call(x *ast.CallExpr) {
 			return
 		case "sync.Once.Do":
 			once := "once:" + s.lockName(recv, sel)
+			s.f.acq = append(s.f.acq, cAcq{once, s.locksNow()})
 			if len(x.Args) == 1 {
 				switch a := x.Args[0].(type) {
 				case *ast.FuncLit:
@@ -1027,7 +1044,7 @@ func (s *fnState) collectLocals() {
 
 func (an *concAn) summarise(f *cFunc) {
 	s := &fnState{an: an, f: f, locals: map[types.Object]cRoots{}}
-	f.writes, f.calls, f.unattr = nil, nil, nil
+	f.writes, f.calls, f.unattr, f.acq = nil, nil, nil, nil
 	s.collectLocals()
 	s.block(f.decl.Body)
 	// results
@@ -1116,7 +1133,15 @@ var onceLike = map[string]string{connHandshakeKey: "once:gmtls.Conn.Handshake"}
 // outside the model (and the claim): renegotiation
 var excludedCallees = map[string]bool{"(*" + gmsmPath + "gmtls.Conn).handleRenegotiation": true}
 
-func (an *concAn) resolve(entry *cFunc, unattr, excluded map[string]bool) []srcWrite {
+var onceLikeTag = func() map[string]bool {
+	m := map[string]bool{}
+	for _, t := range onceLike {
+		m[t] = true
+	}
+	return m
+}()
+
+func (an *concAn) resolve(entry *cFunc, unattr, excluded map[string]bool, order map[[2]string]bool) []srcWrite {
 	seen := map[string]bool{}
 	out := map[srcWrite]bool{}
 	var dfs func(f *cFunc, bind []cRoots, locks []string)
@@ -1132,6 +1157,15 @@ func (an *concAn) resolve(entry *cFunc, unattr, excluded map[string]bool) []srcW
 		seen[k] = true
 		if tag, ok := onceLike[f.key]; ok {
 			locks = mergeLocks(locks, []string{tag})
+		}
+		// lock order: every lock held (by the callers or in this function) when another one is taken
+		// (the once-like tag of Conn.Handshake is a label, not a lock: handshakeMutex is the lock)
+		for _, a := range f.acq {
+			for _, h := range mergeLocks(locks, a.held) {
+				if !onceLikeTag[h] {
+					order[[2]string{strings.TrimPrefix(h, "R:"), a.lock}] = true
+				}
+			}
 		}
 		for _, u := range f.unattr {
 			unattr[u] = true
@@ -1259,6 +1293,7 @@ func init() {
 		var ents []ent
 		n := 0
 		unattr, excluded := map[string]bool{}, map[string]bool{}
+		order := map[[2]string]bool{}
 		for _, k := range sortedKeys(an.funcs) {
 			f := an.funcs[k]
 			name, ok := entryName(f)
@@ -1266,7 +1301,7 @@ func init() {
 				continue
 			}
 			n++
-			if ws := an.resolve(f, unattr, excluded); len(ws) > 0 {
+			if ws := an.resolve(f, unattr, excluded, order); len(ws) > 0 {
 				ents = append(ents, ent{name, ws})
 			}
 		}
@@ -1319,6 +1354,28 @@ func init() {
 		strList("gen_unattributed", unattr)
 		b.WriteString("(* functions deliberately left out of the analysis (outside the model) although reachable *)\n")
 		strList("gen_excluded", excluded)
+		b.WriteString("(* lock order: (held, taken) for every Lock / RLock / Once.Do reachable from an entry point while another lock\n" +
+			"   or Once is held, by the function itself or by its callers on the call path *)\n")
+		{
+			var ps [][2]string
+			for p := range order {
+				ps = append(ps, p)
+			}
+			sort.Slice(ps, func(i, j int) bool {
+				if ps[i][0] != ps[j][0] {
+					return ps[i][0] < ps[j][0]
+				}
+				return ps[i][1] < ps[j][1]
+			})
+			b.WriteString("Definition gen_lock_order : list (string * string) :=\n  [")
+			for i, p := range ps {
+				if i > 0 {
+					b.WriteString(";\n   ")
+				}
+				fmt.Fprintf(&b, "(%q, %q)", p[0], p[1])
+			}
+			b.WriteString("].\n\n")
+		}
 		fmt.Printf("gen: conc analysed %d entry points, %d with shared writes\n", n, len(ents))
 		path := filepath.Join(c.Out, "ConcWriteSets.v")
 		old, err := os.ReadFile(path)
